@@ -40,7 +40,7 @@ Print Assumptions C09_param_flow.
    conversions and dispatch; the simulation carries the invariant that every interface value stems from a
    conversion of the program, whose pair therefore has its triggers) *)
 Theorem C09_clean_means_panic_free : forall prog afuel ctr pk r st,
-  analyze_program afuel ctr pk prog = Some r -> r_gsafe r = true -> r_clocal r = true ->
+  analyze_program afuel ctr pk prog = Some r -> r_gsafe r = true -> r_clocal r = true -> r_nodel r = true ->
   wf_program prog = true -> ctr_arity ctr 0 (p_funcs prog) = true -> impls_plain prog ctr = true ->
   (forall g fd, ctr g = true -> nth_error (p_funcs prog) g = Some fd -> contract_true prog fd) ->
   pkg_run [] [] (all_triggers r) st -> conflicts st = [] ->
@@ -57,7 +57,7 @@ Example C09_flows_reported :
 Proof. exact iface_flows_reported. Qed.
 
 Example C09_example :
-  exists r res, analyze_program 8 no_ctr one_pkg ex_iface_ok = Some r /\ r_gsafe r = true /\ r_clocal r = true /\
+  exists r res, analyze_program 8 no_ctr one_pkg ex_iface_ok = Some r /\ r_gsafe r = true /\ r_clocal r = true /\ r_nodel r = true /\
     wf_program ex_iface_ok = true /\ impls_plain ex_iface_ok no_ctr = true /\
     analyze_pkg all_exported 200 [] [] (all_triggers r) = Finished res /\ r_conflicts res = [].
 Proof. exact iface_ok_premises. Qed.
